@@ -69,9 +69,10 @@ class Site:
 
 class AV:
     """abstract value"""
-    __slots__ = ("o", "item", "key", "elems", "lead", "trail", "note", "xs")
+    __slots__ = ("o", "item", "key", "elems", "lead", "trail", "note", "xs", "plain")
 
-    def __init__(self, o, item=None, key=None, elems=None, lead=(), trail=(), note="", xs=False):
+    def __init__(self, o, item=None, key=None, elems=None, lead=(), trail=(), note="", xs=False, plain=False):
+        self.plain = plain    # built text that can contain no quote / backslash / newline
         self.o, self.item, self.key, self.elems = o, item, key, elems
         self.lead, self.trail, self.note = tuple(lead), tuple(trail), note
         self.xs = xs          # the value is exactly a `str` (built by an f-string / + / join / repr)
@@ -113,21 +114,26 @@ def lub(a: AV | None, b: AV | None) -> AV | None:
             o = m.o
     return AV(o, item=lub(a.item, b.item), key=lub(a.key, b.key), elems=elems,
               lead=tuple(dict.fromkeys(a.lead + b.lead)), trail=tuple(dict.fromkeys(a.trail + b.trail)),
-              note=(a.note if _ORD[a.o] >= _ORD[b.o] else b.note) or a.note or b.note, xs=a.xs and b.xs)
+              note=(a.note if _ORD[a.o] >= _ORD[b.o] else b.note) or a.note or b.note, xs=a.xs and b.xs,
+              plain=_is_plain(a) and _is_plain(b))
 
 
 def flat(a: AV | None) -> AV:
     """the value as a whole (tuple positions / items collapsed): used when structure is lost"""
     if a is None:
         return unk("no value")
-    m = AV(a.o, lead=a.lead, trail=a.trail, note=a.note, xs=a.xs)
+    m = AV(a.o, lead=a.lead, trail=a.trail, note=a.note, xs=a.xs, plain=_is_plain(a))
     for x in (a.elems or []):
         m = lub(m, flat(x))
     if a.item is not None:
         m = lub(m, flat(a.item))
     if a.key is not None:
         m = lub(m, flat(a.key))
-    return AV(m.o, lead=m.lead, trail=m.trail, note=m.note, xs=m.xs)
+    return AV(m.o, lead=m.lead, trail=m.trail, note=m.note, xs=m.xs, plain=m.plain)
+
+
+def _is_plain(a) -> bool:
+    return a.o == CODE and (a.plain or any(k in (a.note or "") for k in PLAIN_NOTES))
 
 
 # ---------------------------------------------------------------------------
@@ -202,7 +208,7 @@ TYPED_DICT_FUNCS = {"pack_typed_dict", "unpack_typed_dict"}
 CALL_RULES = {
     # type_name: its body IS scanned (helpers.py); data enters only through its Literal branch
     # (_get_literal_values_str), whose splice sites are rows of the table
-    "type_name": code("type name"), "get_generic_name": code("generic name"), "random_hex": code("random hex"), "clean_id": code("identifier"),
+    "type_name": code("type name"), "get_generic_name": code("generic name"), "random_hex": code("random hex"), "clean_id": code("clean identifier"),
     "hash_type_args": code("hash"), "get_type_name_identifier": code("type name identifier"),
     "id": code("int"), "len": code("int"), "str": None, "int": code("int"),
     "get": None,  # dict.get / Registry.get: see call()
@@ -293,8 +299,46 @@ def type_guard_of(test) -> dict:
     return out
 
 
+def open_quote(text: str):
+    """the quote character of the string literal that `text` (template text of a generated line,
+    placeholders as \x02) leaves open, or None"""
+    q, esc = None, False
+    for c in text:
+        if q is None:
+            if c in "'\"":
+                q = c
+            elif c == "#":
+                return None
+        elif esc:
+            esc = False
+        elif c == "\\":
+            esc = True
+        elif c == q:
+            q = None
+    return q
+
+
+# library-chosen texts that can contain no quote, backslash or newline (identifiers, dotted names, numbers)
+PLAIN_NOTES = ("field name", "method name", "clean identifier", "random hex", "hash", "attrs holder name", "registry name",
+               "format name", "uuid", "int", "cache attribute", "class __name__", "module constant", "flag name",
+               "option name", "attribute name chosen", "import name", "method prefix", "method suffix", "keyword name")
+# type_name(X) is a dotted class name (module.qualname) when X is a class object, not a typing construct
+CLASS_EXPRS = ("type_name(self.cls)", "type_name(spec.builder.cls)", "type_name(cls)")
+
+
+def plain_origin(expr: str, av) -> bool:
+    if av.o != CODE:
+        return False
+    if expr in CLASS_EXPRS:
+        return True
+    if expr.startswith("type_name("):
+        return False          # may be a Literal[...] / generic rendering with quotes
+    return _is_plain(av)
+
+
 class Scanner:
     def __init__(self):
+        self.ident_rows: dict = {}
         self.guards: dict = {}
         self.type_guards: dict = {}
         self.sites: dict[tuple, Site] = {}
@@ -437,8 +481,10 @@ class Scanner:
             elif av_f.o == CODE:
                 self.counts[CODE] += 1
                 self.code_exprs.setdefault(expr, av_f.note)
+                self.in_string_site(parts, i, en, expr, av_f, before)
             elif av_f.o == QUOTED:
                 self.counts[QUOTED] += 1
+                self.in_string_site(parts, i, en, expr, av_f, before)
                 for s in av_f.lead:
                     if before:
                         s.befores.add(before)
@@ -479,7 +525,35 @@ class Scanner:
                 self.counts[UNK] += 1
                 res_o = max(res_o, UNK, key=_ORD.get)
             before += "\x02"
-        return AV(res_o, lead=lead, trail=trail, note="built text", xs=True)
+        static = "".join(p[1] for p in parts if p[0] == "text")
+        plain = res_o == CODE and not any(c in static for c in "'\"\\\n\r#") and \
+            all(_is_plain(flat(p[1])) and not p[2] for p in parts if p[0] == "av")
+        return AV(res_o, lead=lead, trail=trail, note="built text", xs=True, plain=plain)
+
+    def in_string_site(self, parts, i, en, expr, av_f, before):
+        """a library-text placeholder that sits INSIDE a static string literal of the template
+        ('{fname}', 'Argument for {type_name(self.cls)} ...'): recorded in ident_sites"""
+        q = open_quote(before)
+        if q is None:
+            return
+        inner_before = before[before.rindex(q) + 1:] if q in before else before
+        # the static text up to the closing quote (other placeholders as \x02)
+        rest = ""
+        for p in parts[i + 1:]:
+            rest += p[1] if p[0] == "text" else "\x02"
+        k, esc = None, False
+        for j, c in enumerate(rest):
+            if esc:
+                esc = False
+            elif c == "\\":
+                esc = True
+            elif c == q:
+                k = j
+                break
+        inner_after = rest[:k] if k is not None else rest + "\x01"
+        key = (self.file, en.lineno, en.col_offset, expr)
+        self.ident_rows[key] = (self.file, en.lineno, self.func, expr, av_f.note or av_f.o, plain_origin(expr, av_f), q,
+                                inner_before, inner_after, self.round)
 
     def ev_Attribute(self, n, env):
         txt = ast.unparse(n)
@@ -1152,6 +1226,18 @@ def gen() -> str:
     lines.append("")
     lines.append(f"Definition k10_formatted_values_total : nat := {sc.total_fv}.")
     lines.append("")
+    lines.append("(* library text placed inside static string literals of the templates *)")
+    lines.append("Definition ident_sites : list isite :=")
+    irows = []
+    for k in sorted(sc.ident_rows):
+        ir = sc.ident_rows[k]
+        if ir[-1] != sc.round:
+            continue
+        irows.append("   mk_isite %s %d %s %s %s %s %s %s %s" % (
+            coq_string(ir[0].split("/")[-1]), ir[1], coq_string(ir[2]), coq_string(ir[3][:80]), coq_string(ir[4][:60]),
+            "true" if ir[5] else "false", coq_string(ir[6]), coq_string(ir[7]), coq_string(ir[8])))
+    lines.append("  [" + ";\n".join(irows) + "].")
+    lines.append("")
     lines.append("(* CodeBuilder.get_field_default_literal: its if/elif chain *)")
     lines.append("Definition default_literal_branches : list (dguard * daction) :=")
     lines.append("  [" + "; ".join(f"({g}, {a})" for g, a in default_literal_branches()) + "].")
@@ -1167,6 +1253,9 @@ def report() -> dict:
         "sites": [{"file": s.file, "line": s.line, "func": s.func, "expr": s.expr, "kind": s.kind, "origin": s.origin,
                    "types": s.types, "before": b, "after": a} for s, b, a in rs],
         "code_exprs": sc.code_exprs,
+        "ident_sites": [{"file": ir[0], "line": ir[1], "func": ir[2], "expr": ir[3], "origin": ir[4], "plain": ir[5],
+                         "quote": ir[6], "before": ir[7], "after": ir[8]}
+                        for k, ir in sorted(sc.ident_rows.items()) if ir[-1] == sc.round],
     }
 
 
@@ -1175,6 +1264,11 @@ if __name__ == "__main__":
     r = report()
     for s in r["sites"]:
         print(s["kind"], s["file"].split("/")[-1], s["line"], s["func"], "|", s["expr"], "|", s["origin"], "|", ",".join(s["types"]), "|", repr(s["before"][-30:]), repr(s["after"][:20]))
+    sc2 = Scanner().run()
+    for k in sorted(sc2.ident_rows):
+        ir = sc2.ident_rows[k]
+        if ir[-1] == sc2.round:
+            print("IDENT", ir[0].split("/")[-1], ir[1], ir[2], "|", ir[3], "|", ir[4][:40], "| plain" if ir[5] else "| NOT-PLAIN", "|", repr(ir[6]), repr(ir[7]), repr(ir[8]))
     print(default_literal_branches())
     print(r["counts"], "excluded", r["excluded_in_raise"], "total", r["total_formatted_values"])
     if "-v" in sys.argv:
